@@ -1445,9 +1445,7 @@ class LangServer:
                 self.workspace.pop(filepath, None)
                 for _, other_obj in self.workspace.items():
                     other_obj.ast.resolve_includes(self.workspace, path=filepath)
-                self.link_version = (self.link_version + 1) % 1000
-                for _, other_obj in self.workspace.items():
-                    other_obj.ast.resolve_links(self.obj_tree, self.link_version)
+                self._relink_workspace()
             return
         did_change, err_str = self.update_workspace_file(
             filepath, read_file=True, allow_empty=did_open
@@ -1462,11 +1460,21 @@ class LangServer:
             file_obj = self.workspace.get(filepath)
             file_obj.ast.resolve_includes(self.workspace)
             # Update inheritance/links
-            self.link_version = (self.link_version + 1) % 1000
-            for _, file_obj in self.workspace.items():
-                file_obj.ast.resolve_links(self.obj_tree, self.link_version)
+            self._relink_workspace()
         if not self.disable_diagnostics:
             self.send_diagnostics(uri)
+
+    def _relink_workspace(self):
+        """Start a new link generation for every file of the workspace
+
+        Inheritance first: the links of a file (ASSOCIATE, procedure pointers,
+        ...) may look into the inherited members of types that other files
+        declare, whatever the order of the files."""
+        self.link_version = (self.link_version + 1) % 1000
+        for _, file_obj in self.workspace.items():
+            file_obj.ast.resolve_inheritance(self.obj_tree, self.link_version)
+        for _, file_obj in self.workspace.items():
+            file_obj.ast.resolve_links(self.obj_tree, self.link_version)
 
     def _remove_file_globals(self, ast_old: FortranAST, filepath: str):
         """Remove the top-level objects of a file from the object tree"""
@@ -1625,9 +1633,7 @@ class LangServer:
         for _, file_obj in self.workspace.items():
             file_obj.ast.resolve_includes(self.workspace)
         # Update inheritance/links
-        self.link_version = (self.link_version + 1) % 1000
-        for _, file_obj in self.workspace.items():
-            file_obj.ast.resolve_links(self.obj_tree, self.link_version)
+        self._relink_workspace()
 
     def serve_exit(self, request: dict) -> None:
         # Exit server
